@@ -433,6 +433,10 @@ class RealEncoder(AbstractItemEncoder):
 
         return sign, m, encbase, e
 
+    def _encodeDecimal(self, m, e):
+        # ISO 6093 NR3 character form
+        return str2octs('\x03%dE%s%d' % (m, e == 0 and '+' or '', e))
+
     def encodeValue(self, value, asn1Spec, encodeFun, **options):
         if asn1Spec is not None:
             value = asn1Spec.clone(value)
@@ -452,7 +456,7 @@ class RealEncoder(AbstractItemEncoder):
             if LOG:
                 LOG('encoding REAL into character form')
 
-            return str2octs('\x03%dE%s%d' % (m, e == 0 and '+' or '', e)), False, True
+            return self._encodeDecimal(m, e), False, True
 
         elif b == 2:
             fo = 0x80  # binary encoding
